@@ -1140,6 +1140,259 @@ def sec_spanning(ck, G, T):
         sec_kruskal_one(ck, G, T, V, edges, g, ref_lab, max(ref_lab) + 1)
     ck.section("spanning", mst_calls=nm, kruskal_tied_graphs=nk)
 
+
+# ------------------------------------------------------------------ section: coordinate dtypes
+DTYPES = [("float64", np.float64), ("float32", np.float32), ("int", np.int64), ("int", np.int32)]
+
+
+def same_weights(a, b, kind):
+    a, b = np.asarray(a, float), np.asarray(b, float)
+    if a.shape != b.shape:
+        return False
+    if kind == "float32":          # single-precision input: single-precision rounding of sqrt is legitimate
+        return bool(np.allclose(a, b, rtol=2e-6, atol=1e-12))
+    return bool(np.array_equal(a, b))
+
+
+def sec_dtypes(ck, G, B, T):
+    """The same point cloud stored as float64 / float32 / int64 / int32 must give the same graphs
+    (integer lattice coordinates are the natural source of ties and duplicates)."""
+    from nipy.algorithms.utils.fast_distance import euclidean_distance
+    rng = ck.rng("dtypes")
+    clouds = []
+    for n in (2, 3):
+        for pts in itertools.product(range(3), repeat=n):
+            clouds.append(np.array(pts).reshape(n, 1))
+    for pts in itertools.product(itertools.product(range(2), repeat=2), repeat=3):
+        clouds.append(np.array(pts))
+    for _ in range(ck.n(80, 800)):
+        n = int(rng.integers(2, 10))
+        dim = int(rng.integers(1, 4))
+        clouds.append(rng.integers(-3, 6, size=(n, dim)))
+    L = np.array(list(itertools.product(range(3), range(3))))
+    clouds += [L, L[::-1], L[rng.permutation(9)], np.array(list(itertools.product(range(2), range(2), range(2))))]
+    nc = 0
+    for Xi in clouds:
+        n = len(Xi)
+        D2 = sqd(Xi)
+        Dm = np.sqrt(D2.astype(float))
+        Yi = Xi[rng.permutation(n)[:max(1, n // 2)]] + rng.integers(0, 2)
+        D2xy = sqd(Xi, Yi)
+        ref = {}
+        for kind, dt in DTYPES:
+            X, Y = Xi.astype(dt), Yi.astype(dt)
+            nc += 1
+            ck.count(("dtype", kind, str(dt), Xi.tobytes(), Xi.shape), nontrivial=n > 1, bucket="dtype:" + np.dtype(dt).name)
+            rp = {"X": Xi.tolist(), "dtype": np.dtype(dt).name}
+            # euclidean_distance itself
+            try:
+                ED = euclidean_distance(X.copy())
+                EDxy = euclidean_distance(X.copy(), Y.copy())
+                if not same_weights(ED, Dm, kind) or not same_weights(EDxy, np.sqrt(D2xy.astype(float)), kind):
+                    ck.fail("euclidean_distance/wrong-for-%s-input" % kind,
+                            "euclidean_distance(X) with X of dtype %s, X=%s: got %s, distances are %s" % (
+                                np.dtype(dt).name, Xi.tolist(), np.asarray(ED).tolist(), Dm.tolist()), rp)
+            except Exception as e:  # noqa
+                ck.fail("euclidean_distance/raises-for-%s-input" % kind, "%s: %s" % (type(e).__name__, e), rp)
+            # builders: identical graphs whatever the storage type of the coordinates
+            calls = [("knn-%d" % k, (lambda k=k: G.knn(X.copy(), k))) for k in sorted({1, 2, max(1, n - 2)})]
+            for eps in (1.2, 1.5, 2.3):
+                calls.append(("eps_nn-%s" % eps, (lambda eps=eps: G.eps_nn(X.copy(), eps))))
+            calls.append(("cross_knn-1", lambda: B.cross_knn(X.copy(), Y.copy(), 1)))
+            calls.append(("cross_eps-2.5", lambda: B.cross_eps(X.copy(), Y.copy(), 2.5)))
+            for name, fn in calls:
+                fam = name.split("-")[0]
+                try:
+                    g = fn()
+                except Exception as e:  # noqa
+                    ck.fail("%s/raises-for-%s-coordinates" % (fam, kind), "%s with %s coordinates raised %s: %s" % (name, np.dtype(dt).name, type(e).__name__, e),
+                            dict(rp, call=name))
+                    continue
+                W = getattr(g, "W", g.V)
+                A = dense(g.V, W, g.edges, g.weights) if g.E else np.zeros((g.V, W))
+                if kind == "float64":
+                    ref[name] = A
+                    # float64 result against the definition (distances from exact integer arithmetic)
+                    if fam == "eps_nn":
+                        eps = float(name.split("-")[1])
+                        want = np.where((Dm < eps) & ~np.eye(n, dtype=bool), np.maximum(Dm, 1e-16), 0.0)
+                        if not np.array_equal(A, want):
+                            ck.fail("eps_nn/wrong-edge-set", "eps_nn(X, %r), X=%s: adjacency differs from {i!=j, d(i,j) < eps}" % (eps, Xi.tolist()), dict(rp, call=name))
+                    continue
+                A0 = ref.get(name)
+                if A0 is None:
+                    continue
+                if A.shape != A0.shape or not np.array_equal(A > 0, A0 > 0) or not same_weights(A, A0, kind):
+                    ck.fail("%s/result-depends-on-coordinate-dtype-%s" % (fam, kind),
+                            "%s on X=%s stored as %s differs from the same cloud stored as float64: adjacency %s vs %s" % (
+                                name, Xi.tolist(), np.dtype(dt).name, A.tolist(), A0.tolist()), dict(rp, call=name))
+            # mst and set_euclidian
+            if n >= 2 and D2.any():
+                try:
+                    m = with_alarm(2, lambda: G.mst(X.copy()))
+                    me = np.asarray(m.edges).reshape(-1, 2).tolist() if m.E else []
+                    rows = [(int(a), int(b), int(D2[a, b])) for a, b in me]
+                    full = [(a, b, int(D2[a, b])) for a in range(n) for b in range(a + 1, n)]
+                    bad = forest_verdict(n, rows, full, lambda a, b, w: w == int(D2[a, b]))
+                    if bad is None and not same_weights(m.weights, np.sqrt(np.array([D2[a, b] for a, b in me], float)), kind):
+                        bad = "weights are not the euclidean lengths of the edges"
+                    if bad:
+                        ck.fail("mst/wrong-for-%s-coordinates" % kind, "mst(X), X=%s as %s: %s" % (Xi.tolist(), np.dtype(dt).name, bad), dict(rp, impl=me))
+                    g = G.WeightedGraph(n, np.array(me, dtype=np.intp).reshape(-1, 2), np.ones(len(me)))
+                    g.set_euclidian(X.copy())
+                    if not same_weights(g.weights, np.sqrt(np.array([D2[a, b] for a, b in me], float)), kind):
+                        ck.fail("set_euclidian/wrong-for-%s-coordinates" % kind, "set_euclidian(X) with X=%s as %s gives %s" % (
+                            Xi.tolist(), np.dtype(dt).name, np.asarray(g.weights).tolist()), dict(rp, edges=me))
+                except Timeout:
+                    ck.fail("mst/never-terminates", "mst(X) did not return for X=%s as %s" % (Xi.tolist(), np.dtype(dt).name), rp)
+                except Exception as e:  # noqa
+                    ck.fail("mst/raises-for-%s-coordinates" % kind, "%s: %s" % (type(e).__name__, e), rp)
+    ck.section("dtypes", clouds=len(clouds), calls=nc)
+
+
+# ------------------------------------------------------------------ section: operation sequences on one graph object
+def graph_state(g):
+    if not g.E:
+        return []
+    return [(int(a), int(b), float(w)) for (a, b), w in zip(np.asarray(g.edges).reshape(-1, 2).tolist(), np.asarray(g.weights, float).ravel().tolist())]
+
+
+def same_result(a, b):
+    if isinstance(a, tuple):
+        return isinstance(b, tuple) and len(a) == len(b) and all(same_result(x, y) for x, y in zip(a, b))
+    a, b = np.asarray(a, float), np.asarray(b, float)
+    return a.shape == b.shape and bool(np.array_equal(a, b, equal_nan=True))
+
+
+def sec_sequences(ck, G, T):
+    """Random programs on ONE WeightedGraph object: query / re-weight / mutate / query again.  After every
+    step each query is also evaluated on a graph freshly built from the object's current (V, edges, weights)
+    and must agree exactly; with integer weights it is also compared with the references and the Coq model."""
+    WeightedGraph = G.WeightedGraph
+    rng = ck.rng("sequences")
+    nseq, nsteps = 0, 0
+    for it in range(ck.n(260, 2600)):
+        V = int(rng.integers(2, 8))
+        sym = rng.random() < 0.6
+        if sym:
+            und = [(u, v, int(rng.integers(0, 5))) for u in range(V) for v in range(u + 1, V) if rng.random() < 0.5]
+            edges = [e for (u, v, w) in und for e in ((u, v, w), (v, u, w))]
+        else:
+            edges = [(u, v, int(rng.integers(0, 5))) for u in range(V) for v in range(V) if rng.random() < 0.4]
+        if not edges:
+            edges = [(0, V - 1, 1), (V - 1, 0, 1)]
+        edges = [edges[i] for i in rng.permutation(len(edges))]
+        g = mkgraph(WeightedGraph, V, edges)
+        hist = [{"op": "WeightedGraph", "V": V, "edges": edges}]
+        nseq += 1
+        last_mut = "construction"
+        ck.count(("seq", V, tuple(edges), it), bucket="sequence")
+
+        def queries():
+            s0 = int(rng.integers(V))
+            seeds = [int(x) for x in rng.choice(V, size=int(rng.integers(1, min(V, 3) + 1)), replace=False)]
+            qs = [("dijkstra", {"seed": s0}, lambda h: h.dijkstra(s0)),
+                  ("dijkstra", {"seed": seeds}, lambda h: h.dijkstra(np.array(seeds))),
+                  ("voronoi_labelling", {"seed": seeds}, lambda h: h.voronoi_labelling(np.array(seeds))),
+                  ("compact_neighb", {}, lambda h: tuple(h.compact_neighb())),
+                  ("floyd", {}, lambda h: h.floyd()),
+                  ("cc", {}, lambda h: h.cc()),
+                  ("to_coo_matrix", {}, lambda h: h.to_coo_matrix().toarray())]
+            if sym:
+                qs.append(("kruskal", {}, lambda h: (lambda K: (np.asarray(K.edges).reshape(-1, 2), np.asarray(K.weights)))(h.kruskal())))
+            k = int(rng.integers(1, 4))
+            return [qs[i] for i in rng.choice(len(qs), size=k, replace=False)]
+
+        def mutate():
+            kind = ["set_euclidian", "set_euclidian-int", "set_gaussian", "normalize", "weights-assigned", "set_weights",
+                    "symmeterize", "remove_trivial_edges", "remove_edges", "edges-permuted"][int(rng.integers(10))]
+            if kind.startswith("set_euclidian"):
+                X = rng.integers(0, 7, size=(V, 1))
+                X = X.astype(np.int64) if kind.endswith("int") else X.astype(float)
+                g.set_euclidian(X)
+                return kind, {"X": X.ravel().tolist()}
+            if kind == "set_gaussian":
+                X = rng.integers(0, 4, size=(V, 2)).astype(float)
+                g.set_gaussian(X, 2.0)
+                return kind, {"X": X.tolist(), "sigma": 2.0}
+            if kind == "normalize":
+                if g.E == 0 or (np.asarray(g.weights) <= 0).any():
+                    g.weights = np.asarray(g.weights, float) + 1.0
+                    return "weights-assigned", {"weights": "weights + 1"}
+                c = int(rng.integers(0, 2))
+                g.normalize(c)
+                return kind, {"c": c}
+            if kind == "weights-assigned":
+                w = rng.integers(0, 6, size=g.E).astype(float)
+                g.weights = w
+                return kind, {"weights": w.tolist()}
+            if kind == "set_weights":
+                w = rng.integers(0, 6, size=g.E).astype(float)
+                g.set_weights(w)
+                return kind, {"weights": w.tolist()}
+            if kind == "symmeterize":
+                g.symmeterize()
+                return kind, {}
+            if kind == "remove_trivial_edges":
+                g.remove_trivial_edges()
+                return kind, {}
+            if kind == "remove_edges":
+                if g.E <= 1:
+                    return "none", {}
+                valid = (rng.random(g.E) < 0.8).astype(int)
+                valid[int(rng.integers(g.E))] = 1
+                g.remove_edges(valid)
+                return kind, {"valid": valid.tolist()}
+            if g.E:
+                o = rng.permutation(g.E)
+                g.edges[:] = g.edges[o]          # in place: same array object, new content
+                g.weights = np.asarray(g.weights)[o]
+                return kind, {"order": o.tolist()}
+            return "none", {}
+
+        for step in range(int(rng.integers(3, 8))):
+            nsteps += 1
+            if step % 2 == 1:
+                try:
+                    last_mut, arg = mutate()
+                    hist.append(dict(op=last_mut, **arg))
+                except Exception as e:  # noqa
+                    ck.fail("sequence/mutator-raises", "%s: %s after %s" % (type(e).__name__, e, hist), {"history": hist})
+                    break
+                if g.E == 0:
+                    break
+                continue
+            state = graph_state(g)
+            intw = all(w >= 0 and w == int(w) for _, _, w in state)
+            for qname, qarg, q in queries():
+                hist.append(dict(op=qname, **qarg))
+                fresh = WeightedGraph(g.V, np.array([(a, b) for a, b, _ in state], dtype=np.intp).reshape(-1, 2), np.array([w for _, _, w in state]))
+                try:
+                    r1 = q(g)
+                    r2 = q(fresh)
+                except Exception as e:  # noqa
+                    ck.fail("sequence/%s-raises-after-%s" % (qname, last_mut), "%s: %s; history %s" % (type(e).__name__, e, hist), {"history": hist})
+                    continue
+                if not same_result(r1, r2):
+                    ck.fail("sequence/%s-after-%s-differs-from-fresh-graph" % (qname, last_mut),
+                            "%s(%s) on a graph object after the steps %s returns %s; a graph freshly built from its current edges/weights %s returns %s" % (
+                                qname, qarg, [h["op"] for h in hist], np.asarray(r1[-1] if isinstance(r1, tuple) else r1).tolist(), state,
+                                np.asarray(r2[-1] if isinstance(r2, tuple) else r2).tolist()),
+                            {"history": hist, "state": state})
+                if intw and qname == "dijkstra":
+                    ie = [(a, b, int(w)) for a, b, w in state]
+                    sd = qarg["seed"] if isinstance(qarg["seed"], list) else [qarg["seed"]]
+                    want = fw(g.V, ie)[sd, :].min(0)
+                    if not np.array_equal(np.asarray(r1, float), want):
+                        ck.fail("sequence/dijkstra-after-%s-wrong-distance" % last_mut,
+                                "dijkstra(%s) after %s: %s, true distances %s (edges %s)" % (sd, [h["op"] for h in hist], dvec(r1), dvec(want), ie),
+                                {"history": hist, "state": state})
+                    T.newgraph(cE(ie))
+                    T.add("sequence_dijkstra", "zl_eqb (und (dijkstra_model %s %s %s %s)) %s" % (
+                        cnat(g.V), cE(ie), cnats(akey(g.V, ie)), cnats(sd), zl(dvec(r1))),
+                        {"history": hist, "state": state, "impl": dvec(r1)})
+    ck.section("sequences", programs=nseq, steps=nsteps)
+
 # ------------------------------------------------------------------ term collection
 class Terms:
     def __init__(self):
@@ -1269,6 +1522,8 @@ def run(ck):
     sec_builders(ck, G, B, T)
     sec_structural(ck, G, T)
     sec_spanning(ck, G, T)
+    sec_dtypes(ck, G, B, T)
+    sec_sequences(ck, G, T)
     t3 = time.time()
     T.run(ck)
     ck.section("timing", sp_s=round(t1 - t0, 1), sym_s=round(t2 - t1, 1), builders_structural_s=round(t3 - t2, 1), coq_eval_s=round(time.time() - t3, 1))
